@@ -183,7 +183,7 @@ Apply(t, e, f, g) ==
     /\ loc' = IF e = "ldloc" THEN [loc EXCEPT ![t] = node[f]] ELSE loc
     /\ tmp' = IF e = "ldtmp" THEN [tmp EXCEPT ![t] = node[f]] ELSE tmp
     /\ wn'  = IF e = "wbuf" THEN [wn EXCEPT ![t] = @ + 1] ELSE wn
-    /\ acked' = IF e = "ack" \/ (e = "ackclose" /\ fdw[t])
+    /\ acked' = IF e \in {"ack", "ackff"} \/ (e = "ackclose" /\ fdw[t])
                 THEN [acked EXCEPT ![f] = @ \cup buf[t]] ELSE acked
     /\ fdst' = CASE e \in {"openws", "openw", "openr"} -> [fdst EXCEPT ![t] = "created"]
                  [] e = "wbuf" -> [fdst EXCEPT ![t] = "dirty"]
